@@ -33,3 +33,5 @@ def run(prog, rep):
     _rk14.run_getter_verbatim(prog, rep)
     from ..rules import r_mbt as _mbt14
     _mbt14.run(prog, rep, only=r'^nix::(Property|Section)::', floor=4)
+    from ..rules import r_io as _rio14
+    _rio14.run_strio(prog, rep)
